@@ -3,7 +3,8 @@ import re
 from harness import kprops, kbridge
 from harness.kbridge import EXTRA_MODULES, TRUSTED_EXTRA, prepare
 from vlib.util import unbits
-ASSUMPTIONS = ['integer amounts and items; PriorityStore items are plain integers (ties are indistinguishable)',
+ASSUMPTIONS = ['integer amounts and items in the cases replayed by the model; PriorityStore items are plain integers (ties are indistinguishable)',
+               'containers with float (binary fractions, exact in IEEE double) and Fraction amounts are judged by the direct oracle only (harness/kamount.py)',
                'filters are drawn from a family of five predicates']
 SPEC = [(9, 'store'), (1, 'plan:store')]
 
@@ -99,8 +100,21 @@ def oracle_fcfs(case, lines, runner=None):
     return []
 
 def run(ctx):
+    from harness import kamount
+    if ctx.replay:
+        import json
+        j = json.load(open(ctx.replay))
+        if isinstance(j.get('case'), dict) and j['case'].get('probe') == 'container-amounts':
+            fails, st = kamount.run_probe(j['case'])
+            return {'coverage': {'evaluations': 1, 'distinct_nontrivial': 1, 'rule': 'replayed fractional-amount container probe', 'samples': [j['case']],
+                                 'fractional_amount_probes': st}, 'disagreements': [], 'oracle_failures': fails}
     res = kprops.run_kernel(ctx, 'C07', SPEC, 1500, 40000, oracles=[oracle_bounds, oracle_heads, oracle_handout, oracle_conservation, oracle_fcfs],
                              nontrivial=lambda c, lines: any(('pq' in l and not re.search(r'pq0 gq0', l)) for l in lines if l.startswith('S ')),
                              rule='seeded put/get/cancel histories of 2-8 processes on containers and the three stores; non-trivial = distinct history in which some request had to queue')
     res['coverage'].update(kbridge.coverage('C07'))
+    if not ctx.replay:
+        # oracle-only cases, counted separately: containers with float (binary-fraction) and Fraction amounts, judged exactly
+        fails, cov = kamount.probes(ctx)
+        res['oracle_failures'] += fails
+        res['coverage']['fractional_amount_probes'] = cov
     return res
